@@ -143,5 +143,62 @@ def check_lexical_gen(ctx, rep, rng, tier):
                         return cnt
         finally:
             os.chdir(home)
+    cnt += check_real_inside_gen(ctx, rep, rng, tier)
     rep.extra["lexical_gen_cases"] = cnt
+    return cnt
+
+
+def check_real_inside_gen(ctx, rep, rng, tier):
+    """is_real_path_inside: the generated function (it takes what os.path.realpath(target) answered) against the real one, on
+    targets in a scratch tree with symbolic links and on names that do not exist; and, where both strs are real paths in
+    canonical form, against the component-wise prefix test of FS.real_inside (PathFsGen.gen_is_real_path_inside)"""
+    import pathlib
+    import shutil
+    import tempfile
+    import vlib
+    from py7zr.helpers import is_real_path_inside
+    model = ctx.get("model")
+    if model is None or "gen_is_real_path_inside" not in vlib.fn_table():
+        return 0
+    cnt = 0
+    base = os.path.realpath(tempfile.mkdtemp(prefix="pathgen-"))
+    try:
+        os.makedirs(os.path.join(base, "d", "sub"))
+        os.makedirs(os.path.join(base, "d_backup"))
+        os.makedirs(os.path.join(base, "e"))
+        os.symlink("../e", os.path.join(base, "d", "out"))
+        os.symlink("sub", os.path.join(base, "d", "in"))
+        os.symlink("/", os.path.join(base, "d", "rootlink"))
+        os.symlink("loop", os.path.join(base, "d", "loop"))
+        rels = ["", ".", "x", "sub", "sub/x", "in/x", "out", "out/x", "../d_backup/x", "../d/x", "..", "../..", "rootlink", "rootlink/etc",
+                "loop", "loop/x", "sub/../../e", "sub//x/", "./sub/./x", "a/../../d_backup", "\\x"]
+        targets = [os.path.join(base, "d", r) for r in rels] + ["/", "//", "///", "/tmp", "//tmp", "/tmp/", base, base + "/", "d", "."]
+        roots = [base + "/d", base + "/d/", base + "/d//", base, "/", "//", base + "/d_backup", base + "/d/sub", base + "/e", base + "/d/out", "",
+                 base + "/D", "/tmp"]
+        for t in targets:
+            for tt in (t, pathlib.Path(t)):
+                real0 = os.path.realpath(tt)
+                for root in roots:
+                    want = [0, 1 if is_real_path_inside(tt, root) else 0]
+                    got = model.call("gen_is_real_path_inside", [s2l(real0), s2l(root)])
+                    cnt += 1
+                    rep.count(("gen-real", str(t)[len(base):] if str(t).startswith(base) else str(t), type(tt).__name__,
+                               root[len(base):] if root.startswith(base) else root), nontrivial=True)
+                    if got != want:
+                        rep.violation("is_real_path_inside(%r, %r): generated %r code %r" % (str(tt), root, got, want),
+                                      {"kind": "lexical-gen", "fn": "is_real_path_inside", "target": str(tt), "root": root}, concrete=False,
+                                      match_keys={"kind": "model-mismatch", "what": "generated"})
+                        return cnt
+                    # both strs canonical ("/" or "/a/b"): the verdict is the component-wise prefix test
+                    def canon(s):
+                        return s == "/" or (s.startswith("/") and not s.endswith("/") and "//" not in s)
+                    if canon(real0) and canon(root):
+                        a, b = [c for c in real0.split("/") if c], [c for c in root.split("/") if c]
+                        if (b == a[:len(b)]) != bool(want[1]):
+                            rep.violation("is_real_path_inside(%r, %r) = %r is not the component-wise prefix test" % (real0, root, want[1]),
+                                          {"kind": "lexical-gen", "fn": "real_inside-prefix", "real": real0, "root": root}, concrete=False,
+                                          match_keys={"kind": "model-mismatch", "what": "generated"})
+                            return cnt
+    finally:
+        shutil.rmtree(base, ignore_errors=True)
     return cnt
